@@ -114,8 +114,9 @@ def run(c):
     results = [x for part in parts for x in part]
     if sum(1 for x in results if cases[x[0]]["core"] and x[1] == 0) < ncore:
         raise Machinery("not every case of the fixed stratum was executed")
-    if len(results) < min(len(jobs), ncore + 20):
-        raise Machinery("only %d of %d planned case runs were executed before the deadline" % (len(results), len(jobs)))
+    # (the fixed stratum always runs; how much of the sampled remainder fits before the deadline depends on machine load and
+    #  is reported, not required)
+    c.extra["sampled_runs_executed"] = len(results) - ncore
     batch, meta = [], []
     unreachable, driver_errors = {}, []
     for (i, rep, recs, err) in results:
